@@ -8,9 +8,9 @@
      ranges, the signing equation for the k the tape defines, sign -> verify, gen -> val, wrap -> unwrap, DH symmetry;
      lines with lvl = 1 are recomputed in full (scalar multiplications over BigNat).
  (2) replay direction: TLC generates cases with predicted outputs (spec/gen/Gen_Bign.tla), the harness executes them.
- Observation O1 (not a violation of the statement): bignKeyWrap does not check that the recipient's public key is on
- the curve (bign.h says ERR_BAD_PUBKEY); bignVerify reports an off-curve key as ERR_BAD_SIG.  Both are rejected /
- outside alg. 7.2.3's input domain."""
+ Public keys: bign.h states \expect{ERR_BAD_PUBKEY} "the public key is valid" for bignVerify, bignKeyWrap and bignDH, so a
+ key whose coordinates are in the field but off the curve must be answered with ERR_BAD_PUBKEY (keys
+ `bignKeyWrap:off-curve-pubkey-accepted`, `bignVerify:off-curve-pubkey:not-BAD_PUBKEY`)."""
 import os, json, glob, re, time
 import vlib
 
@@ -41,6 +41,10 @@ def key_of(row):
         m = re.search(r"H=([^:]+)", cls)
         if m and m.group(1) in ("q", "q+1", "2^2l-1"):
             return "%s:H>=q:%s" % (fn, "abort" if op == "abort" else "s1-wrong")
+    if fn == "bignKeyWrap" and cls.startswith("Q=y^1"):
+        return "bignKeyWrap:off-curve-pubkey-accepted"
+    if fn == "bignVerify" and (cls.startswith("alt=Q.y^1") or cls.startswith("alt=Q:=(0,0)")):
+        return "bignVerify:off-curve-pubkey:not-BAD_PUBKEY"
     if op == "abort":
         return "%s:abort:%s" % (fn, cls)
     return "%s:l=%s:%s" % (fn, l, cls)
@@ -234,5 +238,4 @@ def run(ctx):
     ev.assume("STB 34.101.45 as transcribed in spec/ref/Bign.tla, anchored by the appendix tables G.1-G.7 evaluated by TLC in this run")
     ev.assume("the number of sampling attempts before ERR_BAD_RNG is B_PER_IMPOSSIBLE + 1 = 65 (defs.h / zz.h); the deterministic nonce is "
               "modelled for its first candidate (a second round has probability < 2^-%d)" % 120)
-    ev.assume("a recipient public key that is in the field but off the curve is outside alg. 7.2.3's input domain (observation O1)")
     vlib.log("[C02] done %.0fs" % (time.time() - t0))
